@@ -197,13 +197,59 @@ Proof.
             (proj1 (b64_char_plain _ L3)), (proj1 (b64_char_plain _ L4)), (IH Hr). reflexivity.
 Qed.
 
-Lemma b64_padder_encode s : b64_padder (b64_encode s) = b64_encode s.
-Proof. unfold b64_padder. rewrite b64_encode_length. reflexivity. Qed.
+Lemma b64_pad_count_step c1 c2 c3 c4 X :
+  b64_pad_count (c1 :: c2 :: c3 :: c4 :: X) = b64_pad_count X.
+Proof.
+  unfold b64_pad_count. cbn [length]. rewrite !Nat2N.inj_succ.
+  replace (N.succ (N.succ (N.succ (N.succ (N.of_nat (length X)))))) with (N.of_nat (length X) + 1 * 4) by lia.
+  rewrite N.mod_add by lia. reflexivity.
+Qed.
+
+Lemma b64_pad_count_encode s : b64_pad_count (b64_encode s) = O.
+Proof. unfold b64_pad_count. rewrite b64_encode_length. reflexivity. Qed.
+
+(* one full quantum at the head of the stream *)
+Lemma b64_stream_step v1 v2 v3 v4 X p : v1 < 64 -> v2 < 64 -> v3 < 64 -> v4 < 64 ->
+  b64_stream (b64_char v1 :: b64_char v2 :: b64_char v3 :: b64_char v4 :: X) p =
+  let n := v1 * 262144 + v2 * 4096 + v3 * 64 + v4 in
+  b64_cons3 (n / 65536) ((n / 256) mod 256) (n mod 256) (b64_stream X p).
+Proof.
+  intros L1 L2 L3 L4. unfold b64_stream. cbn [split_quanta].
+  destruct (split_quanta X) as [a0 b0]. cbn [b64_decode_quanta].
+  rewrite (b64_val_char _ L1), (b64_val_char _ L2), (b64_val_char _ L3), (b64_val_char _ L4).
+  rewrite (proj2 (b64_char_plain _ L3)), (proj2 (b64_char_plain _ L4)). cbv zeta.
+  destruct (b64_decode_quanta a0) as [w1|e1]; cbn [b64_cons3]; [|reflexivity].
+  destruct (split_quanta (b0 ++ repeat_n c_pad p)) as [a2 b2].
+  destruct (b64_decode_quanta a2) as [w2|e2]; [|reflexivity].
+  destruct b2; reflexivity.
+Qed.
+
+Lemma b64_stream_roundtrip s : bytes s -> b64_stream (b64_encode s) O = B64Ok s.
+Proof.
+  induction s as [|a|a b|a b c r IH] using list_ind3; intro Hs.
+  - reflexivity.
+  - inversion Hs as [|? ? Ha _]; subst. unfold is_byte in Ha.
+    destruct (group1 a Ha) as (L1 & L2 & E1).
+    unfold b64_stream. cbn [b64_encode split_quanta b64_decode_quanta].
+    rewrite (b64_val_char _ L1), (b64_val_char _ L2).
+    rewrite N.eqb_refl. cbn [b64_after_pad app repeat_n split_quanta b64_decode_quanta]. rewrite E1. reflexivity.
+  - inversion Hs as [|? ? Ha Hs']; subst. inversion Hs' as [|? ? Hb _]; subst. unfold is_byte in Ha, Hb.
+    destruct (group2 a b Ha Hb) as (L1 & L2 & L3 & E1 & E2).
+    unfold b64_stream. cbn [b64_encode split_quanta b64_decode_quanta].
+    rewrite (b64_val_char _ L1), (b64_val_char _ L2), (b64_val_char _ L3).
+    rewrite (proj2 (b64_char_plain _ L3)). rewrite N.eqb_refl. cbv zeta.
+    cbn [b64_after_pad app repeat_n split_quanta b64_decode_quanta]. rewrite E1, E2. reflexivity.
+  - inversion Hs as [|? ? Ha Hs1]; subst. inversion Hs1 as [|? ? Hb Hs2]; subst.
+    inversion Hs2 as [|? ? Hc Hr]; subst. unfold is_byte in Ha, Hb, Hc.
+    destruct (group3 a b c Ha Hb Hc) as (L1 & L2 & L3 & L4 & E1 & E2 & E3).
+    cbn [b64_encode]. rewrite (b64_stream_step _ _ _ _ _ _ L1 L2 L3 L4). cbv zeta.
+    rewrite (IH Hr). cbn [b64_cons3]. rewrite E1, E2, E3. reflexivity.
+Qed.
 
 Theorem b64_roundtrip s : bytes s -> b64_decode (b64_encode s) = B64Ok s.
 Proof.
-  intro Hs. unfold b64_decode. rewrite b64_padder_encode, (b64_encode_no_newline s Hs).
-  exact (b64_quanta_roundtrip s Hs).
+  intro Hs. unfold b64_decode. rewrite b64_pad_count_encode, (b64_encode_no_newline s Hs).
+  exact (b64_stream_roundtrip s Hs).
 Qed.
 
 (* well-formedness: alphabet characters, then at most two pad characters, and
@@ -258,33 +304,60 @@ Proof.
     cbn [app strip_pad]. rewrite (alpha_not_pad c Hc), (IH Hb). reflexivity.
 Qed.
 
-Lemma repeat_n_app c n : repeat_n c (S n) = repeat_n c n ++ [c].
-Proof. induction n as [|n IH]; [reflexivity|]. cbn [repeat_n app] in *. rewrite <- IH. reflexivity. Qed.
-
-(* re-padding a stripped encoding gives the encoding back *)
-Lemma b64_padder_strip s : bytes s -> b64_padder (strip_pad (b64_encode s)) = b64_encode s.
+Lemma alpha_not_newline c : b64_alpha c = true -> is_newline c = false.
 Proof.
-  intro Hs. destruct (b64_encode_body s Hs) as (body & pad & E & Hb & Hp).
-  pose proof (b64_encode_length s) as HL. rewrite E in *. rewrite (strip_pad_body _ _ Hb Hp).
-  unfold b64_padder. rewrite app_length, Nat2N.inj_add in HL.
-  destruct Hp as [->|[->| ->]]; cbn [length] in HL.
-  - rewrite N.add_0_r in HL. rewrite HL. cbn. rewrite app_nil_r. reflexivity.
-  - assert (Hm : N.of_nat (length body) mod 4 = 3).
-    { change (N.of_nat 1) with 1 in HL. set (k := N.of_nat (length body)) in *. clearbody k.
-      pose proof (N.div_mod (k + 1) 4 ltac:(lia)) as E1. rewrite HL in E1.
-      symmetry. apply (N.mod_unique _ _ ((k + 1) / 4 - 1)); lia. }
-    rewrite Hm. reflexivity.
-  - assert (Hm : N.of_nat (length body) mod 4 = 2).
-    { change (N.of_nat 2) with 2 in HL. set (k := N.of_nat (length body)) in *. clearbody k.
-      pose proof (N.div_mod (k + 2) 4 ltac:(lia)) as E1. rewrite HL in E1.
-      symmetry. apply (N.mod_unique _ _ ((k + 2) / 4 - 1)); lia. }
-    rewrite Hm. reflexivity.
+  unfold is_newline, c_lf, c_cr. intro H.
+  destruct (c =? 10) eqn:E1; [apply N.eqb_eq in E1; subst c; vm_compute in H; discriminate|].
+  destruct (c =? 13) eqn:E2; [apply N.eqb_eq in E2; subst c; vm_compute in H; discriminate|].
+  reflexivity.
+Qed.
+
+Lemma alpha_no_newlines body : forallb b64_alpha body = true -> strip_newlines body = body.
+Proof.
+  induction body as [|c body IH]; [reflexivity|]. cbn [forallb]. intro H.
+  apply andb_true_iff in H as [Hc Hb]. cbn [strip_newlines].
+  rewrite (alpha_not_newline c Hc), (IH Hb). reflexivity.
+Qed.
+
+Lemma b64_stream_unpadded s : bytes s ->
+  b64_stream (strip_pad (b64_encode s)) (b64_pad_count (strip_pad (b64_encode s))) = B64Ok s.
+Proof.
+  induction s as [|a|a b|a b c r IH] using list_ind3; intro Hs.
+  - reflexivity.
+  - inversion Hs as [|? ? Ha _]; subst. unfold is_byte in Ha.
+    destruct (group1 a Ha) as (L1 & L2 & E1).
+    cbn [b64_encode strip_pad].
+    rewrite (proj2 (b64_char_plain _ L1)), (proj2 (b64_char_plain _ L2)). rewrite N.eqb_refl.
+    change (b64_pad_count [b64_char (a * 65536 / 262144); b64_char ((a * 65536 / 4096) mod 64)]) with 2%nat.
+    unfold b64_stream. cbn [split_quanta b64_decode_quanta app repeat_n].
+    rewrite (b64_val_char _ L1), (b64_val_char _ L2).
+    rewrite N.eqb_refl. cbn [b64_after_pad app]. rewrite E1. reflexivity.
+  - inversion Hs as [|? ? Ha Hs']; subst. inversion Hs' as [|? ? Hb _]; subst. unfold is_byte in Ha, Hb.
+    destruct (group2 a b Ha Hb) as (L1 & L2 & L3 & E1 & E2).
+    cbn [b64_encode strip_pad].
+    rewrite (proj2 (b64_char_plain _ L1)), (proj2 (b64_char_plain _ L2)), (proj2 (b64_char_plain _ L3)). rewrite N.eqb_refl.
+    match goal with |- b64_stream ?t (b64_pad_count ?t) = _ => change (b64_pad_count t) with 1%nat end.
+    unfold b64_stream. cbn [split_quanta b64_decode_quanta app repeat_n].
+    rewrite (b64_val_char _ L1), (b64_val_char _ L2), (b64_val_char _ L3).
+    rewrite (proj2 (b64_char_plain _ L3)). rewrite N.eqb_refl. cbv zeta.
+    cbn [b64_after_pad app]. rewrite E1, E2. reflexivity.
+  - inversion Hs as [|? ? Ha Hs1]; subst. inversion Hs1 as [|? ? Hb Hs2]; subst.
+    inversion Hs2 as [|? ? Hc Hr]; subst. unfold is_byte in Ha, Hb, Hc.
+    destruct (group3 a b c Ha Hb Hc) as (L1 & L2 & L3 & L4 & E1 & E2 & E3).
+    cbn [b64_encode strip_pad].
+    rewrite (proj2 (b64_char_plain _ L1)), (proj2 (b64_char_plain _ L2)),
+            (proj2 (b64_char_plain _ L3)), (proj2 (b64_char_plain _ L4)).
+    rewrite b64_pad_count_step, (b64_stream_step _ _ _ _ _ _ L1 L2 L3 L4). cbv zeta.
+    rewrite (IH Hr). cbn [b64_cons3]. rewrite E1, E2, E3. reflexivity.
 Qed.
 
 Theorem b64_unpadded_roundtrip s : bytes s -> b64_decode (strip_pad (b64_encode s)) = B64Ok s.
 Proof.
-  intro Hs. unfold b64_decode. rewrite (b64_padder_strip s Hs), (b64_encode_no_newline s Hs).
-  exact (b64_quanta_roundtrip s Hs).
+  intro Hs. unfold b64_decode.
+  destruct (b64_encode_body s Hs) as (body & pad & E & Hb & Hp).
+  assert (Hn : strip_newlines (strip_pad (b64_encode s)) = strip_pad (b64_encode s)).
+  { rewrite E, (strip_pad_body _ _ Hb Hp). exact (alpha_no_newlines body Hb). }
+  rewrite Hn. exact (b64_stream_unpadded s Hs).
 Qed.
 
 (* ---------- line-wrapped / newline-terminated text ---------- *)
@@ -305,8 +378,8 @@ Qed.
 Theorem b64_fixed_accepts_newlines s t : bytes s ->
   strip_newlines t = b64_encode s -> b64_decode_fixed t = B64Ok s.
 Proof.
-  intros Hs Ht. unfold b64_decode_fixed, b64_padder_fixed. rewrite Ht, b64_padder_encode.
-  rewrite (b64_encode_no_newline s Hs). exact (b64_quanta_roundtrip s Hs).
+  intros Hs Ht. unfold b64_decode_fixed. rewrite Ht, b64_pad_count_encode.
+  exact (b64_stream_roundtrip s Hs).
 Qed.
 
 (* non-string input is rejected before the codec is reached: modelled at the
